@@ -12,6 +12,7 @@ fn usage() -> ! {
 
 fn main() {
     install_hook();
+    enable_logging();
     let args: Vec<String> = std::env::args().collect();
     if args.len() < 3 {
         usage();
